@@ -104,8 +104,8 @@ def correspond(ctx, corr, model_ok):
         corr.count('raw-byte injections', sc.raw_injected)
         corr.count('frame logging at DEBUG', 1 if sc.desc.get('debug_log') else 0)
         corr.count('fragmented', sc.fragmented)
-    corr.oracle_failures.extend(websocket_oracle())
-    corr.count('aiohttp websocket transports (server / client side) with garbage, empty, TEXT and PING messages', 2)
+    from harness import battery as _b
+    _b.run(corr, ['aiohttp-websocket'])
     corr.oracle_failures.extend(failing_responder_oracle())
     corr.count('failing library publishers / futures (factory, first step, later step)', 14)
     if model_ok:
